@@ -430,6 +430,9 @@ def _judge(desc: dict[str, Any], recipe: list[Any], profile: str = "macro") -> t
     a = build_args(desc, recipe, 0, profile)
     b = build_args(desc, recipe, 1, profile)
     if a is None or b is None:
+        seq = _judge_sequence_sum(desc, recipe)
+        if seq is not None:
+            return seq
         return [], {"status": "unsupported-parameter"}
     args_a, si_a, inf_a = a
     args_b, si_b, _inf_b = b
@@ -593,6 +596,82 @@ def _perturbation_sensitive(desc: dict[str, Any], names: list[str], args: list[A
         if abs(outs[0] - o) > sympy.Float("1e-9") * (abs(outs[0]) + abs(o)):
             return True
     return False
+
+
+def _judge_sequence_sum(desc: dict[str, Any], recipe: list[Any]) -> tuple[list[tuple[str, str]], dict[str, Any]] | None:
+    """Family adapter: a function with a single sequence-valued parameter guarded by an IndexedSymbol x whose module
+    publishes Eq(total, IndexedSum(x[i], i)) (or Eq(IndexedSum(x[i], i), 0), where the function returns the missing
+    element).  Oracle: the returned SI value equals the sum of the SI values of the generated elements (exact rationals),
+    resp. minus that sum."""
+    # pylint: disable=too-many-locals,too-many-return-statements
+    import sympy
+    from sympy.physics.units import Quantity as SymQuantity
+    from symplyphysics import Quantity
+    from symplyphysics.core.operations.sum_indexed import IndexedSum
+    from symplyphysics.core.symbols.symbols import IndexedSymbol
+    params = desc["params"]
+    if len(params) != 1 or not isinstance(params[0]["guard"], IndexedSymbol):
+        return None
+    base = params[0]["guard"]
+    mod = import_module(desc["module"])
+    target = None
+    for attr, eq in public_equations(mod):
+        if not isinstance(eq, sympy.Equality):
+            continue
+        for side, other in ((eq.rhs, eq.lhs), (eq.lhs, eq.rhs)):
+            if isinstance(side, IndexedSum) and isinstance(side.args[0], sympy.Indexed) and side.args[0].base == base:
+                target = (attr, "total" if other != 0 else "zero")
+    if target is None:
+        return None
+    dv = _dimvec(base.dimension)
+    if dv is None:
+        return None
+    site = f"{short(desc['module'])}:{desc['name']}"
+    n = 1 + recipe[0][3] % 4
+    elems, si = [], []
+    for i in range(n):
+        num, den, k, sgn, u1, _u2, px1, _px2 = recipe[i % len(recipe)]
+        val = sympy.Rational(num, den * 7) * sympy.Integer(10)**(k % 3)
+        if target[1] == "zero" and sgn % 2:
+            val = -val
+        if dv.is_dimensionless:
+            elems.append(float(val) if "float" in params[0]["ann"] else val)
+            si.append(sympy.Rational(float(val)) if "float" in params[0]["ann"] else val)
+            continue
+        names = MU.names_of_dim(dv)
+        if names and u1 % 2:
+            un = names[u1 % len(names)]
+            f = MU.factor(un)
+            q = val / f
+            if not MU.exact(un):
+                q = sympy.Rational(sympy.nsimplify(q, rational=True))
+            elems.append(Quantity(q * MU.lib_unit(un)))
+            si.append(q * f)
+        else:
+            elems.append(Quantity(val * dv.si_unit()))
+            si.append(val)
+        _ = px1
+    try:
+        res = desc["fn"](elems)
+    except _Hang:
+        raise
+    except Exception as exc:  # pylint: disable=broad-except
+        return [], {"status": "raised:" + type(exc).__name__, "tier": "sequence-sum"}
+    try:
+        got = _num(si_value(res)) if isinstance(res, (SymQuantity, sympy.Basic, int, float)) else None
+    except Exception:  # pylint: disable=broad-except
+        got = None
+    if got is None or not got.is_number:
+        return [], {"status": "unreadable-result", "tier": "sequence-sum"}
+    want = sum(si, sympy.S.Zero) * (1 if target[1] == "total" else -1)
+    info = {"status": "ok", "tier": "sequence-sum", "noncoherent": True, "unit_mantissa": False, "units": ["sequence"],
+        "result_zero": bool(got == 0)}
+    if abs(got - want) > sympy.Float("1e-9") * (abs(got) + abs(want)) + sympy.Float("1e-30"):
+        ok_int = isinstance(res, int) and abs(got - want) < 1  # integer-returning counters truncate
+        if not ok_int:
+            return [(f"residual:{site}", f"{site}({[str(e) for e in elems]}) returned SI value {_fmt(got)} but the module's equation "
+                f"'{target[0]}' gives {_fmt(want)} for these elements")], info
+    return [], info
 
 
 def _residual_msg(site: str, attr: str, args: list[Any], na: Any, res: Any, sc: Any) -> str:
